@@ -43,6 +43,15 @@ META = {
     "C07": _m("E1", "content monitor inside the history driver: canonical payload, blob reader and stored checksum vs the bytes that were put",
               _HIST + "Judged per active frame: stored whole => frame_canonical_payload == P, blob_reader bytes == P, blake3(file[offset..+len]) == checksum; chunked => document payload == concatenation of its chunk frames (and == normalized text for unstructured text).",
               "Whether a put is chunked is discovered from the real frame table (and from preview_chunks for UTF-8), not predicted."),
+    "C13": _m("E1", "differential monitor: search_vec on the real Memvid vs an f64 brute-force reference, before and after reopen",
+              "Random embedding sets (dimension 1..64, up to 600 vectors with duplicates, zero vectors, +-1e18 and tie-heavy grids) put through the public API; per query: hit count = min(k, m), distances non-decreasing and equal to the L2 definition, no omitted frame clearly closer than the last hit, wrong-dimension queries rejected, identical ids and distance bits after close and reopen (read-write and read-only).",
+              "Default (exact) configuration only. Ties are not ordered; the closer-frame test uses a relative 1e-5 guard against f32 rounding."),
+    "C14": _m("E1", "membership monitor: findable set, stats().vector_count, frame_embedding and self-queries vs the model's set of active embedded frames, in two build configurations",
+              "Histories of embedded and plain puts, updates with/without a new embedding and with/without payload, deletes, up to a target number of active embedded frames; checked after commit, reopen, doctor(rebuild_vec_index), vacuum and a second reopen, in the default build and in the hnsw_bench build with sizes on both sides of the 1000-vector switch.",
+              "Unique embeddings per put. In large histories the per-frame checks are sampled (60 frames per stage)."),
+    "C15": _m("E1", "timeline monitor against the reference model after every commit / reopen / doctor and with the time index absent",
+              "Histories with explicit random timestamps (negative, equal, i64 extremes), plain and chunked documents, extracted images with a parent, deletes and updates. Judged: every active Document frame exactly once, no duplicates, entries carry the frame's own timestamp, (timestamp, id) order, reverse is the exact reverse, since/until are inclusive restrictions of the unlimited result, limit n is a prefix.",
+              "Non-document roles need not be listed, but if listed they must respect the order. Reference = the model's frame table, not the time index."),
     "C19": _m("E1", "directory-listing monitor after every API call of the history driver; forbidden-sidecar probes",
               _HIST + "Judged: after every call (Ok or Err) the directory holds exactly the .mv2 file; for each forbidden sidecar name create/open/open_read_only/doctor/verify must refuse and leave the directory unchanged.",
               "$TMPDIR (Tantivy scratch) is pointed outside the directory. Files that exist only during a call are C02's concern."),
